@@ -369,7 +369,11 @@ class RefVal:
         self.meta = meta  # slice length IntVal for fat pointers / subslice window (start, len)
 
     def fp(self):
-        return ("R", self.loc, fp(self.meta))
+        loc = self.loc
+        proj = loc[-1]
+        if proj:
+            proj = tuple((p[0], p[1]) if p[0] == "f" else (tuple(fp(x) for x in p)) for p in proj)
+        return ("R", loc[:-1] + (proj,), fp(self.meta))
 
     def __repr__(self):
         return "&%s%r" % ("mut " if self.mut else "", self.loc)
